@@ -160,7 +160,7 @@ def run(ctx):
         "decoder_calls_checked_by_TLC": nrec, "panics": npanic, "chunking_groups": len(groups), "groups_with_differences": len(bad_groups),
         "exhaustive": False,
     }, ["Framing.tla decides NeedMore / Error / frame extent from the fixed header only; whether a complete frame is a packet or malformed is left to the decoders but must not depend on the chunking",
-        "the decoders are called at their codec entry points (Packet::read / Protocol::read_mut) inside a buffering loop like Framed / Network::read"])
+        "the broker decoders are called at Protocol::read_mut, the client decoders through the tokio_util Decoder of the public Codec (incoming limit = max, outgoing limit different in both directions) cross-checked with Packet::read, inside a buffering loop like Framed / Network::read"])
 
 
 def replay(ctx, path):
